@@ -14,20 +14,23 @@ Fixpoint R (s : st) (ss : sst) : Prop :=
   | Flu o u, SFlu log su => sm_sorted o /\ kwf o /\ (forall k, sm_get o k = lastw log k) /\ R u su
   | Tab p u, STab p' su => p = p' /\ wf_bytes p = true /\ R u su
   | Syn u, SSyn su => R u su
+  | Lzy o i u, SLzy log i' su =>
+      i = i' /\ sm_sorted o /\ kwf o /\ (forall k, sm_get o k = lastw log k) /\ R u su
   | _, _ => False
   end.
 
 Lemma R_wf s : forall ss, R s ss -> wf_st s.
 Proof.
-  induction s as [e m|o|o u IH|p u IH|u IH]; intros [m'|log su|p' su|su]; cbn; try tauto.
+  induction s as [e m|o|o u IH|p u IH|u IH|o i u IH]; intros [m'|log su|p' su|su|log i' su]; cbn; try tauto.
   - intros (So & Wo & _ & Ru). eauto.
   - intros (_ & Wp & Ru). eauto.
   - eauto.
+  - intros (_ & So & Wo & _ & Ru). eauto.
 Qed.
 
 Lemma R_view s : forall ss, R s ss -> view s = sview ss.
 Proof.
-  induction s as [e m|o|o u IH|p u IH|u IH]; intros [m'|log su|p' su|su]; cbn; try tauto.
+  induction s as [e m|o|o u IH|p u IH|u IH|o i u IH]; intros [m'|log su|p' su|su|log i' su]; cbn; try tauto.
   - intros [E _]. congruence.
   - intros (So & Wo & Hl & Ru). rewrite <- (IH _ Ru).
     pose proof (view_sorted u (R_wf _ _ Ru)) as Sv. unfold kv_overlay_view.
@@ -35,6 +38,13 @@ Proof.
     intros k. rewrite sm_get_merge_overlay, kv_write_get by auto. unfold ov_lookup. now rewrite Hl.
   - intros (-> & Wp & Ru). now rewrite (IH _ Ru).
   - auto.
+  - intros (<- & So & Wo & Hl & Ru). unfold kv_overlay_view.
+    assert (Sv : sm_sorted (if i then view u else [])).
+    { destruct i; [apply view_sorted; eapply R_wf; eauto | exact I]. }
+    assert (E : (if i then view u else []) = (if i then sview su else [])) by (destruct i; auto).
+    rewrite <- E.
+    apply sm_ext; auto using merge_overlay_sorted, kv_write_sorted.
+    intros k. rewrite sm_get_merge_overlay, kv_write_get by auto. unfold ov_lookup. now rewrite Hl.
 Qed.
 
 (* ---------- batches: home coordinates ---------- *)
@@ -53,12 +63,13 @@ Proof. induction s; cbn; intros W; auto; f_equal; try tauto; apply IHs; tauto. Q
 
 Lemma st_bwrite_app s a b : st_bwrite s (a ++ b) = st_bwrite (st_bwrite s a) b.
 Proof.
-  induction s as [e m|o|o u IH|p u IH|u IH]; cbn.
+  induction s as [e m|o|o u IH|p u IH|u IH|o i u IH]; cbn.
   - unfold kv_write. now rewrite fold_left_app.
   - unfold flu_write. now rewrite fold_left_app.
   - unfold flu_write. now rewrite fold_left_app.
   - now rewrite IH.
   - now rewrite IH.
+  - unfold flu_write. now rewrite fold_left_app.
 Qed.
 
 Lemma flush_chunks_concat size ideal ops : forall cur sz,
@@ -157,7 +168,7 @@ Qed.
 Theorem R_write s : forall ss ops1 ops2, R s ss -> Forall wop_wf ops1 ->
   (forall k, lastw ops1 k = lastw ops2 k) -> R (st_write s ops1) (swrite ss ops2).
 Proof.
-  induction s as [e m|o|o u IH|p u IH|u IH]; intros [m'|log su|p' su|su] ops1 ops2; cbn [R]; try tauto.
+  induction s as [e m|o|o u IH|p u IH|u IH|o i u IH]; intros [m'|log su|p' su|su|log i' su] ops1 ops2; cbn [R]; try tauto.
   - intros (<- & Sm & Wm) F H. unfold st_write. rewrite map_st_bop_id by reflexivity. cbn.
     repeat split; auto using kv_write_sorted, kv_write_equiv. now apply kv_write_kwf.
   - intros (-> & So) F H. unfold st_write. rewrite map_st_bop_id by reflexivity. cbn.
@@ -171,18 +182,21 @@ Proof.
     apply IH; auto using wop_wf_pre.
     intros k. rewrite !lastw_map_pre. destruct (has_prefix p' k); auto.
   - intros Ru F H. rewrite st_write_syn. cbn. now apply IH.
+  - intros (<- & So & Wo & Hl & Ru) F H. unfold st_write. rewrite map_st_bop_id by reflexivity. cbn.
+    repeat split; auto using flu_write_sorted, flu_write_kwf.
+    intros k. rewrite flu_write_get, lastw_app, H, Hl. reflexivity.
 Qed.
 
 Lemma st_put_write s k v : st_put s k v = st_write s [WPut k v].
 Proof.
-  revert k. induction s as [e m|o|o u IH|p u IH|u IH]; intros k; cbn; auto.
+  revert k. induction s as [e m|o|o u IH|p u IH|u IH|o i u IH]; intros k; cbn; auto.
   - rewrite IH. reflexivity.
   - rewrite IH. reflexivity.
 Qed.
 
 Lemma st_del_write s k : st_del s k = st_write s [WDel k].
 Proof.
-  revert k. induction s as [e m|o|o u IH|p u IH|u IH]; intros k; cbn; auto.
+  revert k. induction s as [e m|o|o u IH|p u IH|u IH|o i u IH]; intros k; cbn; auto.
   - rewrite IH. reflexivity.
   - rewrite IH. reflexivity.
 Qed.
@@ -197,17 +211,22 @@ Qed.
 (* Flush: the parent receives the log; the overlay is empty *)
 Theorem R_flush ideal s ss : R s ss -> R (st_flush ideal s) (sflush ss).
 Proof.
-  destruct s as [e m|o|o u|p u|u]; destruct ss as [m'|log su|p' su|su]; cbn [R st_flush sflush]; try tauto.
-  intros (So & Wo & Hl & Ru). rewrite st_flush_into_write.
-  repeat split; cbn; auto; try constructor.
-  apply R_write; auto using flu_ops_wf.
-  intros k. rewrite lastw_flu_ops by auto. apply Hl.
+  destruct s as [e m|o|o u|p u|u|o i u]; destruct ss as [m'|log su|p' su|su|log i' su]; cbn [R st_flush sflush]; try tauto.
+  - intros (So & Wo & Hl & Ru). rewrite st_flush_into_write.
+    repeat split; cbn; auto; try constructor.
+    apply R_write; auto using flu_ops_wf.
+    intros k. rewrite lastw_flu_ops by auto. apply Hl.
+  - intros (_ & So & Wo & Hl & Ru). rewrite st_flush_into_write.
+    repeat split; cbn; auto; try constructor.
+    apply R_write; auto using flu_ops_wf.
+    intros k. rewrite lastw_flu_ops by auto. apply Hl.
 Qed.
 
 Theorem R_drop s ss : R s ss -> R (st_drop s) (sdrop ss).
 Proof.
-  destruct s as [e m|o|o u|p u|u]; destruct ss as [m'|log su|p' su|su]; cbn [R st_drop sdrop]; try tauto.
-  intros (So & Wo & Hl & Ru). repeat split; cbn; auto; constructor.
+  destruct s as [e m|o|o u|p u|u|o i u]; destruct ss as [m'|log su|p' su|su|log i' su]; cbn [R st_drop sdrop]; try tauto.
+  - intros (So & Wo & Hl & Ru). repeat split; cbn; auto; constructor.
+  - intros (E & So & Wo & Hl & Ru). repeat split; cbn; auto; constructor.
 Qed.
 
 (* ---------- NotFlushedPairs ---------- *)
@@ -248,6 +267,7 @@ Qed.
 Theorem R_nfp s ss : R s ss ->
   match st_nfp s, snfp ss with Some a, Some b => a = b | None, None => True | _, _ => False end.
 Proof.
-  destruct s as [e m|o|o u|p u|u]; destruct ss as [m'|log su|p' su|su]; cbn [R st_nfp snfp]; try tauto.
-  intros (So & Wo & Hl & Ru). now apply nfp_is_distinct_keys.
+  destruct s as [e m|o|o u|p u|u|o i u]; destruct ss as [m'|log su|p' su|su|log i' su]; cbn [R st_nfp snfp]; try tauto.
+  - intros (So & Wo & Hl & Ru). now apply nfp_is_distinct_keys.
+  - intros (_ & So & Wo & Hl & Ru). now apply nfp_is_distinct_keys.
 Qed.
